@@ -6,6 +6,7 @@ import (
 	"runtime/debug"
 	"sort"
 	"sync"
+	"sync/atomic"
 	"time"
 
 	"github.com/syndtr/goleveldb/leveldb"
@@ -109,6 +110,8 @@ type Runner struct {
 	nKCompact    int
 	nKWf         int
 	lastSeqSeen  uint64
+	prevVersion  []leveldb.VerifTable
+	liveSnaps    int32
 	// Timeout for any single API call (watchdog)
 	CallTimeout time.Duration
 }
@@ -150,7 +153,7 @@ func (r *Runner) onEdit(e leveldb.VerifEdit) {
 		if len(e.Deleted) > 0 && len(e.Added) > 0 {
 			r.Stats["table_compactions"]++
 		}
-		if e.Trivial && len(e.Deleted) == 1 && len(e.Added) == 1 && e.Deleted[0].Num == e.Added[0].Num {
+		if len(e.Deleted) == 1 && len(e.Added) == 1 && e.Deleted[0].Num == e.Added[0].Num {
 			r.Stats["trivial_moves"]++
 		}
 		nl := 0
@@ -196,6 +199,9 @@ func (r *Runner) Open() error {
 		return err
 	}
 	r.DB = db
+	r.mu.Lock()
+	r.prevVersion = leveldb.VerifDumpVersion(db)
+	r.mu.Unlock()
 	return nil
 }
 
@@ -205,6 +211,7 @@ func (r *Runner) Close() error {
 		s.snap.Release()
 	}
 	r.Snaps = nil
+	atomic.StoreInt32(&r.liveSnaps, 0)
 	for _, it := range r.Iters {
 		if !it.closed {
 			it.it.Release()
@@ -220,6 +227,9 @@ func (r *Runner) Close() error {
 	}
 	err := r.DB.Close()
 	r.DB = nil
+	r.mu.Lock()
+	r.prevVersion = nil
+	r.mu.Unlock()
 	return err
 }
 
@@ -430,6 +440,7 @@ func (r *Runner) Step(i int, op *Op) (f *Failure) {
 		}
 		r.Snaps = append(r.Snaps, &snapState{snap: s, frozen: r.Model.Clone(), seq: leveldb.VerifSnapshotSeq(s)})
 		r.statMax("max_live_snapshots", len(r.Snaps))
+		atomic.StoreInt32(&r.liveSnaps, int32(len(r.Snaps)))
 	case OpSnapRead:
 		if len(r.Snaps) == 0 {
 			return nil
@@ -451,6 +462,7 @@ func (r *Runner) Step(i int, op *Op) (f *Failure) {
 		si := op.I % len(r.Snaps)
 		r.Snaps[si].snap.Release()
 		r.Snaps = append(r.Snaps[:si], r.Snaps[si+1:]...)
+		atomic.StoreInt32(&r.liveSnaps, int32(len(r.Snaps)))
 		// releasing one snapshot must not affect the others nor the live DB: verified by the next reads
 	case OpIterOpen:
 		it := r.DB.NewIterator(rng(op), nil)
